@@ -104,8 +104,7 @@ class ComplexStep(BaseGradientApproximator):
         perturbed_outputs = parallel_execution.execute(perturbed_inputs)
 
         return [
-            perturbed_outputs[perturbation_index].imag
-            / input_perturbations[perturbation_index, perturbation_index].imag
+            perturbed_outputs[perturbation_index].imag / step[perturbation_index]
             for perturbation_index in range(n_perturbations)
         ]
 
@@ -123,10 +122,7 @@ class ComplexStep(BaseGradientApproximator):
                 input_values + input_perturbations[:, perturbation_index]
             )
             perturbated_output = self.f_pointer(perturbated_input, **kwargs)
-            gradient.append(
-                perturbated_output.imag
-                / input_perturbations[perturbation_index, perturbation_index].imag
-            )
+            gradient.append(perturbated_output.imag / step[perturbation_index])
 
         return gradient
 
@@ -140,5 +136,11 @@ class ComplexStep(BaseGradientApproximator):
         n_indices = len(input_indices)
         input_perturbations = zeros((input_dimension, n_indices), dtype=complex128)
         x_nnz = where(input_values == 0.0, 1.0, input_values)[input_indices]
-        input_perturbations[input_indices, range(n_indices)] = 1j * x_nnz * step
-        return input_perturbations, step
+        if isinstance(step, ndarray):
+            # One step per input component: keep the ones of the differentiated ones.
+            step = step[input_indices]
+
+        # One step per perturbation.
+        steps = x_nnz * step
+        input_perturbations[input_indices, range(n_indices)] = 1j * steps
+        return input_perturbations, steps
